@@ -4,6 +4,7 @@ import (
 	"context"
 	"crypto/sha256"
 	"encoding/hex"
+	"encoding/json"
 	"fmt"
 	"os"
 	"os/exec"
@@ -31,6 +32,7 @@ type c18Case struct {
 	// only); "cc" gives every nonterminal one of five C++ types and sets variantStackEntry, so
 	// that the cast tables of the C++ parser are exercised.
 	Target string `json:"target,omitempty"`
+	Flex   bool   `json:"flex,omitempty"` // cc: flexMode = true (no generated lexer)
 }
 
 var c18Shipped = []string{"parsers/js/js.tm", "parsers/tm/textmapper.tm", "parsers/json/json.tm", "parsers/test/test.tm", "parsers/simple/simple.tm"}
@@ -43,8 +45,43 @@ func c18Gen(t *rapid.T) c18Case {
 	switch rapid.IntRange(0, 9).Draw(t, "target") {
 	case 0, 1:
 		c.Target, c.Keywords = "cc", 0
+		c.Flex = rapid.IntRange(0, 3).Draw(t, "flex") == 0
 	case 2:
 		c.Target, c.Keywords = "ts", 0
+	}
+	if rapid.IntRange(0, 3).Draw(t, "markerDense") == 0 {
+		// the same state marker in many places, twin alternatives that differ in their first
+		// terminal only (their states behind it are merged by minimizeDFA), minimizeDFA on
+		g := &c.C30.C17.G
+		for _, nt := range g.NTs {
+			for _, a := range nt.Alts {
+				if len(a.Parts) > 0 && rapid.IntRange(0, 2).Draw(t, "marked") > 0 {
+					pos := rapid.IntRange(1, len(a.Parts)).Draw(t, "markAt")
+					a.Parts = append(a.Parts[:pos:pos], append([]*egPart{{K: "mark", Sym: 0}}, a.Parts[pos:]...)...)
+				}
+			}
+			if len(nt.Alts) > 0 && len(nt.Alts) < 4 && rapid.Bool().Draw(t, "twin") {
+				var cp egAlt
+				js, _ := json.Marshal(nt.Alts[rapid.IntRange(0, len(nt.Alts)-1).Draw(t, "twinOf")])
+				json.Unmarshal(js, &cp)
+				if len(cp.Parts) > 1 && cp.Parts[0].K == "t" {
+					used := map[int]bool{}
+					for _, a := range nt.Alts {
+						if len(a.Parts) > 0 && a.Parts[0].K == "t" {
+							used[a.Parts[0].Sym] = true
+						}
+					}
+					for s := 1; s < g.T; s++ {
+						if !used[s] {
+							cp.Parts[0].Sym = s
+							nt.Alts = append(nt.Alts, &cp)
+							break
+						}
+					}
+				}
+			}
+		}
+		c.C30.C17.Opts["minimizeDFA"] = "true"
 	}
 	return c
 }
@@ -70,6 +107,12 @@ func (c *c18Case) otherTarget() string {
 			opts["__ntType:"+name] = " {" + types[(i*3+len(nt.Alts))%len(types)] + "}"
 		}
 		opts["__termType"] = " {int}"
+		if c.Flex {
+			opts["flexMode"] = "true"
+		}
+	}
+	if v, ok := c17.Opts["minimizeDFA"]; ok {
+		opts["minimizeDFA"] = v
 	}
 	c17.Opts = opts
 	c17.Inject = false
@@ -193,6 +236,10 @@ func TestC18Worker(t *testing.T) {
 var c18Others = []string{
 	"language o1(go);\npackage = \"x/o1\"\neventBased = true\n:: lexer\n'a': /a/\n'b': /b/\n:: parser\n%input S;\nS -> Root: 'a' T | 'b' ;\nT -> Leaf: 'b' 'b' ;\n",
 	"language o2(go);\npackage = \"x/o2\"\n:: lexer\nid: /[a-z]+/ (class)\n'if': /if/\n'else': /else/\n'for': /for/\n'while': /while/\n'do': /do/\n'end': /end/\nnum: /[0-9]+/\n:: parser\n%input P;\nP: 'if' id 'else' num | 'for' 'while' 'do' 'end' ;\n",
+	// the other targets, with and without a generated lexer
+	"language o3(cc);\nnamespace = \"o3\"\nflexMode = true\n:: lexer\n'a': /a/\n'b': /b/\n:: parser\n%input S;\nS: 'a' 'b' ;\n",
+	"language o4(cc);\nnamespace = \"o4\"\n:: lexer\n'a': /a/\n'b': /b/\n:: parser\n%input S;\nS: 'a' 'b' ;\n",
+	"language o5(ts);\n:: lexer\n'a': /a/\n:: parser\n%input S;\nS: 'a' ;\n",
 }
 
 func c18Check(c c18Case, r *ev.Recorder) *Failure {
@@ -239,13 +286,17 @@ func c18Check(c c18Case, r *ev.Recorder) *Failure {
 		}
 		r.Class("shipped-grammar-reproduced")
 	}
-	if c.Procs {
+	// cc/ts cases always meet one fresh process: this process has generated for every target
+	// before (c18Others, earlier cases), the fresh one has no history at all
+	if c.Procs || c.Target != "" {
 		tmp := filepath.Join(scratchDir(), fmt.Sprintf("c18-%d.tm", os.Getpid()))
 		os.MkdirAll(filepath.Dir(tmp), 0o755)
 		if err := os.WriteFile(tmp, []byte(text), 0o644); err == nil {
 			defer os.Remove(tmp)
 			procs := []string{"1", "2", "16"}
-			if c.Shipped != "" {
+			if !c.Procs {
+				procs = []string{"4"}
+			} else if c.Shipped != "" {
 				procs = []string{"1", "16"}
 			} else if tier() == "thorough" {
 				procs = []string{"1", "1", "2", "2", "3", "4", "8", "16", "16", "16"}
@@ -292,7 +343,7 @@ func TestC18(t *testing.T) {
 	}
 	p := &prop[c18Case]{
 		ID:   "C18",
-		Rule: "C30/C17's grammar+option generator (sets, lookaheads, lalr(k), mid-rule actions, precedence, event fields/AST, Bison export) plus 0..12 keywords specialised from a (class) lexer rule (keyword hash switch), and 1 in 20 cases one of the five shipped grammars. Per case: two consecutive in-process generations, then a third after generating two unrelated grammars, must be byte-identical (all files); for shipped grammars the regenerated files must equal the committed ones; for 1 in 6 cases (1 in 4 shipped) fresh processes with GOMAXPROCS in {1,2,16} (thorough: 10 processes) regenerate the grammar and must produce the same sha256 (Go randomises map iteration per map, so every generation is a new sample of every map order). Non-trivial: grammar text with >=2 map-backed/ordering-sensitive features; distinct by grammar text.",
+		Rule: "C30/C17's grammar+option generator (sets, lookaheads, lalr(k), mid-rule actions, precedence, event fields/AST, Bison export) plus 0..12 keywords specialised from a (class) lexer rule (keyword hash switch), and 1 in 60 cases one of the five shipped grammars; 3 in 10 cases the grammar is rendered for the cc (typed nonterminals, variantStackEntry, 1 in 4 flexMode) or ts target; 1 in 4 cases are marker-dense (one state marker in two thirds of the alternatives, twin alternatives differing in the first terminal, minimizeDFA on). Per case: two consecutive in-process generations, then a third after generating five unrelated grammars (go, cc with and without flexMode, ts), must be byte-identical (all files); every cc/ts case is also regenerated by one fresh process (no history); for shipped grammars the regenerated files must equal the committed ones; for 1 in 6 cases (1 in 4 shipped) fresh processes with GOMAXPROCS in {1,2,16} (thorough: 10 processes) regenerate the grammar and must produce the same sha256 (Go randomises map iteration per map, so every generation is a new sample of every map order). Non-trivial: grammar text with >=2 map-backed/ordering-sensitive features; distinct by grammar text.",
 		Assume: []string{"a map-order dependency whose variants are very unlikely can need more repetitions than any budget; repetition counts are reported"},
 		Quick: 400, Thorough: 6000,
 		Gen:   c18Gen,
